@@ -59,6 +59,42 @@ def run_eval(cases, chunk=40, workers=8, timeout=1500, parallel=2):
     return recs, tot[0], tot[1]
 
 
+def run_machine(cases, chunk=60, workers=8, timeout=1800, parallel=2):
+    """LRMachine.tla over exported tables: -> ({case id: [records]}, states, generated, violations)"""
+    from concurrent.futures import ThreadPoolExecutor
+    recs = {}
+    viol = []
+    tot = [0, 0]
+    chunks = [cases[i:i + chunk] for i in range(0, len(cases), chunk)]
+
+    def one(ch):
+        wd = mkscratch("run")
+        try:
+            cf = os.path.join(wd, "cases.json")
+            with open(cf, "w") as f:
+                json.dump(ch, f)
+            return ch, run_tlc("LRMachine", "MCRun.cfg", env={"RUN_CASES": cf}, workers=workers, timeout=timeout,
+                               workdir=wd, cont=True)
+        finally:
+            rmtree(wd)
+
+    with ThreadPoolExecutor(max_workers=parallel) as ex:
+        for ch, r in ex.map(one, chunks):
+            tot[0] += r.distinct
+            tot[1] += r.generated
+            for tag, obj in r.prints:
+                if tag == "RUN":
+                    recs.setdefault(obj["id"], []).append(obj)
+            for v in r.violations:
+                st = vlib.trace_last_state(v["trace"])
+                try:
+                    cid = ch[int(st["c"]) - 1]["id"]
+                except Exception:
+                    raise ToolError("cannot attribute LRMachine violation %s:\n%s" % (v["name"], v["trace"][-1500:]))
+                viol.append({"inv": v["name"], "id": cid, "inp": st.get("inp", ""), "res": st.get("res", "")[:300]})
+    return recs, tot[0], tot[1], viol
+
+
 # --------------------------------------------------------------------------
 # real code: lalrpop + rustc + run
 # --------------------------------------------------------------------------
@@ -288,6 +324,63 @@ def compare(rec, oc, algo, backend, suffixed):
             out.append(("C17", "read_after_stream_error", "pulled %d expected %d" % (oc["pulled"], res["at"])))
         return out
     raise ToolError("unknown record kind %r" % kind)
+
+
+def norm_expected(x):
+    """expected-token strings of the real code are the terminals as written"""
+    if isinstance(x, dict):
+        return {k: ([term_of_expected(s) for s in v] if k == "expected" else norm_expected(v)) for k, v in x.items()}
+    if isinstance(x, list):
+        return [norm_expected(v) for v in x]
+    return x
+
+
+def compare_exact(rec, oc, recovery):
+    """LRMachine.tla predicts the table-driven / ascent parser exactly"""
+    if "panic" in oc or "timeout" in oc or "crash" in oc:
+        what = "panic" if "panic" in oc else "timeout" if "timeout" in oc else "crash"
+        return [("C08", what, str(oc.get("panic", "")))]
+    res = rec["res"]
+    kind = res["kind"]
+    out = []
+    own = "C16" if recovery else None
+    ev_exp = [list(e) for e in rec["events"]]
+    ev_got = [list(e) for e in oc["events"]]
+    if kind == "ok":
+        if not oc["ok"]:
+            return [(own or "C01", "model_accepts_code_rejects", json.dumps(oc["error"])[:300])]
+        if norm_expected(oc["value"]) != res["value"]:
+            p = own or ("C06" if mask_locs(oc["value"]) == mask_locs(res["value"]) else "C02")
+            out.append((p, "value_differs_from_model", "model %s code %s" % (json.dumps(res["value"])[:300], json.dumps(oc["value"])[:300])))
+        if ev_got != ev_exp:
+            out.append((own or "C02", "action_log_differs_from_model", "model %s code %s" % (ev_exp, ev_got)))
+        if oc["pulled"] != rec["pulled"]:
+            out.append((own or "C04", "pull_count_differs_from_model", "model %s code %s" % (rec["pulled"], oc["pulled"])))
+        return out
+    if oc["ok"]:
+        return [(own or ("C17" if kind in ("user", "inj") else "C01"), "model_rejects_code_accepts", json.dumps(oc["value"])[:300])]
+    err = norm_expected(oc["error"])
+    if kind in ("tok", "eof", "extra"):
+        exp = {k: v for k, v in res.items()}
+        e2 = {k: v for k, v in err.items() if k != "expected"}
+        x2 = {k: v for k, v in exp.items() if k != "expected"}
+        if e2 != x2:
+            out.append((own or "C04", "error_differs_from_model", "model %s code %s" % (json.dumps(x2), json.dumps(e2))))
+        elif kind != "extra" and err.get("expected") != exp.get("expected"):
+            out.append((own or "C05", "expected_differs_from_model", "model %s code %s" % (exp.get("expected"), err.get("expected"))))
+    elif kind == "user":
+        if err.get("kind") != "user" or err.get("tag") != res["tag"]:
+            out.append(("C17", "user_error_differs_from_model", json.dumps(err)))
+    elif kind == "inj":
+        if err.get("kind") != "user" or err.get("tag") != 900 + res["at"]:
+            out.append(("C17", "stream_error_differs_from_model", json.dumps(err)))
+    if ev_got != ev_exp:
+        out.append((own or ("C17" if kind in ("user", "inj") else "C04"), "action_log_differs_from_model",
+                    "model %s code %s" % (ev_exp, ev_got)))
+    if oc["pulled"] != (res["at"] if kind == "inj" else rec["pulled"]):
+        out.append((own or ("C17" if kind in ("user", "inj") else "C04"), "pull_count_differs_from_model",
+                    "model %s code %s" % (rec["pulled"], oc["pulled"])))
+    return out
 
 
 def same_result(a, b):
